@@ -1795,6 +1795,18 @@ def generate_ordered_map_to_left_right_unique_streamed_old(left,
         else:
             rc = rc[jj:]
 
+    # the right keys are exhausted: the remaining left rows have no match
+    while i < len(left.data):
+        ii = min(chunksize, len(left.data) - i)
+        ltri[:ii] = invalid
+        if is_field_parameter:
+            left_to_right.data.write(ltri[:ii])
+        else:
+            left_to_right[acc_written:acc_written + ii] = ltri[:ii]
+            acc_written += ii
+        i += ii
+        unmapped += ii
+
     return unmapped > 0
 
 
